@@ -11,18 +11,19 @@ Ev == T[l]
 
 TEvents == {"e1", "e2", "e3"}
 TPrios == -1000..1000
+TSpawns == {NoSpawn} \cup {[ev |-> e, prio |-> p] : e \in TEvents, p \in {-5, 0, 5}}
 
 TInit == tid \in 1..NTraces /\ l = 1 /\ Init
 Adv == l' = l + 1 /\ tid' = tid
 Is(op) == l <= Len(T) /\ Ev.op = op
 
 TAdd == /\ Is("add") /\ Adv
-        /\ Add(Ev.ev, Ev.prio, Ev.stops)
+        /\ Add(Ev.ev, Ev.prio, Ev.stops, Ev.spawn)
         /\ Check(tid, l, "H.add.id", "", last'.id = Ev.id)
 
 TDispatch == /\ Is("dispatch") /\ Adv
              /\ Dispatch(Ev.ev)
-             /\ Check(tid, l, "P.dispatch.calls", "", Ev.calls = Calls(Order(Ev.ev)))
+             /\ Check(tid, l, "P.dispatch.calls", "", Ev.calls = Calls(Order(Ev.ev)))      \* Order: registrations before the dispatch
              /\ Note(tid, l, "A.dispatch.calls", Ev.calls = last'.calls)
 
 TGet == /\ Is("get") /\ Adv /\ GetListeners(Ev.ev)
